@@ -72,11 +72,13 @@ func VerifC19_PromiseSeq() {
 
 func VerifC19_PromiseConc() {
 	g := verifParam("goroutines")
-	mode := verifParam("mode") // 0: concurrent Fulfills; 1: settled, then concurrent Waits; 2: Waits and Fulfills mixed
+	mode := verifParam("mode") // 0: concurrent Fulfills; 1: settled, then concurrent Waits; 2: Waits and Fulfills mixed; 3: Waits, Fulfills and Fails mixed
 	p := NewPromise(false, false, false)
 	okFulfill := make([]bool, g+1)
+	okFail := make([]bool, g)
 	waited := make([]bool, g)
 	got := make([]int, g)
+	gotErr := make([]bool, g)
 	var wg sync.WaitGroup
 	kinds := make([]int, g)
 	for i := 0; i < g; i++ {
@@ -85,22 +87,24 @@ func VerifC19_PromiseConc() {
 			kinds[i] = 0
 		case 1:
 			kinds[i] = 1
-		default:
+		case 2:
 			kinds[i] = verifChoice("kind"+string(rune('0'+i)), 2)
+		default:
+			kinds[i] = verifChoice("kind"+string(rune('0'+i)), 3) // 2 = Fail
 		}
 	}
-	if mode == 2 {
-		nf := 0
+	if mode >= 2 {
+		nf, nw := 0, 0
 		for _, k := range kinds {
-			if k == 0 {
+			if k == 1 {
+				nw++
+			} else {
 				nf++
 			}
 		}
-		verifAssume(nf >= 1 && nf < g) // somebody settles the promise, somebody waits
-		// known finding: Wait holds the result outside the mutex (take, then put back); a Fulfill
-		// running in that window sees an unset promise, succeeds a second time and can then block
-		// for ever on the full mailbox while holding the mutex
-		verifKnown("C19-promise-wait-window", true)
+		verifAssume(nf >= 1 && nw >= 1) // somebody settles the promise, somebody waits
+		// (until /repo 9cd465d this scenario was the known finding C19-promise-wait-window:
+		// Wait held the result outside the mutex, a Fulfill in that window succeeded twice)
 	}
 	if mode == 1 {
 		okFulfill[g] = p.Fulfill(10+g) == nil
@@ -110,11 +114,15 @@ func VerifC19_PromiseConc() {
 		i := i
 		go func() {
 			defer wg.Done()
-			if kinds[i] == 0 {
+			switch kinds[i] {
+			case 0:
 				okFulfill[i] = p.Fulfill(10+i) == nil
-			} else {
+			case 2:
+				okFail[i] = p.Fail(10+i, verifErr)
+			default:
 				r := <-p.Wait()
 				waited[i] = true
+				gotErr[i] = r.Err != nil
 				if v, ok := r.Value.(int); ok {
 					got[i] = v
 				}
@@ -130,12 +138,21 @@ func VerifC19_PromiseConc() {
 			winner = 10 + i
 		}
 	}
+	failed := false
+	for i := 0; i < g; i++ {
+		if okFail[i] {
+			nok++
+			winner = 10 + i
+			failed = true
+		}
+	}
 	verifAssert(nok == 1, "exactly-one-successful-fulfill")
 	for i := 0; i < g; i++ {
 		if kinds[i] == 1 {
 			verifAssert(waited[i], "every-wait-returns")
 			if nok == 1 {
 				verifAssert(got[i] == winner, "every-wait-returns-the-fulfilled-value")
+				verifAssert(gotErr[i] == failed, "every-wait-returns-the-failure-iff-failed")
 			}
 		}
 	}
